@@ -11,7 +11,9 @@ package main
 import (
 	"fmt"
 	"go/token"
+	"os"
 	"regexp"
+	"sort"
 	"strings"
 
 	"golang.org/x/tools/go/ssa"
@@ -23,6 +25,9 @@ type fmtVerb struct {
 	zero  bool
 	raw   string
 }
+
+var timeLikeFormat = regexp.MustCompile(`^%[0 ]?\d?d:%[0 ]?\d?d$`)
+var dateLikeFormat = regexp.MustCompile(`^%[0 ]?\d?d-%[0 ]?\d?d-%[0 ]?\d?d$`)
 
 var verbRe = regexp.MustCompile(`%([0#+\- ]*)(\d*)(?:\.\d+)?([a-zA-Z%])`)
 
@@ -93,6 +98,13 @@ func (c *Ctx) renderKind(v ssa.Value, depth int) string {
 						return "YmdHms"
 					}
 				}
+				// a clock or date rendering whose components are not all zero-padded to a fixed width
+				if timeLikeFormat.MatchString(f) {
+					return "HH:MM(not fixed-width: " + f + ")"
+				}
+				if dateLikeFormat.MatchString(f) {
+					return "Ymd(not fixed-width: " + f + ")"
+				}
 				return ""
 			}
 			// a library function that returns one rendering kind on every return
@@ -132,8 +144,17 @@ func (c *Ctx) renderKind(v ssa.Value, depth int) string {
 				}
 			}
 		}
-		if x.Low == nil && x.High != nil {
-			if hi, ok := constInt(x.High); ok && hi == 5 && c.renderKind(x.X, depth+1) == "HH:MM" {
+		if lo, ok := constInt(x.Low); ok && lo == 11 && x.High == nil && c.renderKind(x.X, depth+1) == "YmdHms" {
+			return "HH:MM:SS"
+		}
+		lowZero := x.Low == nil
+		if x.Low != nil {
+			if lo, ok := constInt(x.Low); ok && lo == 0 {
+				lowZero = true
+			}
+		}
+		if lowZero && x.High != nil {
+			if hi, ok := constInt(x.High); ok && hi == 5 && clockKinds(c.renderKind(x.X, depth+1)) {
 				return "HH:MM"
 			}
 		}
@@ -151,6 +172,19 @@ func (c *Ctx) renderKind(v ssa.Value, depth int) string {
 		}
 		if same {
 			return kinds[0]
+		}
+		// `if len(x) > 5 { x = x[0:5] }`: either way the first five characters of a clock rendering
+		if len(x.Edges) == 2 {
+			for i := 0; i < 2; i++ {
+				if sl, ok := x.Edges[i].(*ssa.Slice); ok && sl.X == x.Edges[1-i] && kinds[1-i] != "" {
+					if cond, _, ok := phiSelector(x); ok && isLenGreater(cond, sl.X, 5) {
+						if clockKinds(kinds[1-i]) {
+							return "HH:MM"
+						}
+						return kinds[1-i]
+					}
+				}
+			}
 		}
 		// the initial "" of `x := ""; if c { x = a } else { x = b }` never reaches the merge
 		if len(kinds) == 2 {
@@ -228,7 +262,7 @@ func (c *Ctx) paramKind(p *ssa.Parameter, depth int) string {
 	if idx < 0 || depth > 3 {
 		return ""
 	}
-	kind := ""
+	kinds := map[string]bool{}
 	for _, caller := range c.Funcs {
 		for _, b := range caller.Blocks {
 			for _, ins := range b.Instrs {
@@ -238,17 +272,56 @@ func (c *Ctx) paramKind(p *ssa.Parameter, depth int) string {
 				}
 				k := c.renderKind(call.Common().Args[idx], depth+1)
 				if k == "" {
-					return ""
+					continue // a pass-through of a client's string: says nothing about the library's own renderings
 				}
-				if kind == "" {
-					kind = k
-				} else if kind != k {
-					return ""
-				}
+				kinds[k] = true
 			}
 		}
 	}
-	return kind
+	if len(kinds) <= 1 {
+		for k := range kinds {
+			return k
+		}
+		return ""
+	}
+	// the library's own call sites disagree: the parameter has no single rendering
+	var ks []string
+	for k := range kinds {
+		ks = append(ks, k)
+	}
+	sort.Strings(ks)
+	return "mixed(" + strings.Join(ks, "|") + ")"
+}
+
+// clockKinds: a clock rendering whose first five characters are HH:MM (also when call sites mix the two).
+func clockKinds(k string) bool {
+	if k == "HH:MM" || k == "HH:MM:SS" {
+		return true
+	}
+	if strings.HasPrefix(k, "mixed(") {
+		for _, p := range strings.Split(strings.TrimSuffix(strings.TrimPrefix(k, "mixed("), ")"), "|") {
+			if p != "HH:MM" && p != "HH:MM:SS" {
+				return false
+			}
+		}
+		return true
+	}
+	return false
+}
+
+// isLenGreater matches len(x) > n.
+func isLenGreater(cond ssa.Value, x ssa.Value, n int64) bool {
+	bo, ok := cond.(*ssa.BinOp)
+	if !ok || bo.Op != token.GTR {
+		return false
+	}
+	k, isK := constInt(bo.Y)
+	call, isCall := bo.X.(*ssa.Call)
+	if !isK || k != n || !isCall {
+		return false
+	}
+	b, isB := call.Common().Value.(*ssa.Builtin)
+	return isB && b.Name() == "len" && len(call.Common().Args) == 1 && call.Common().Args[0] == x
 }
 
 // phiSelector: for a two-edge phi, the branch condition that selects between the
@@ -320,6 +393,9 @@ func (c *Ctx) compareSites() []compareSite {
 				}
 				kx := c.renderKind(x, 0)
 				ky := c.renderKind(y, 0)
+				if os.Getenv("LUNARLINT_DEBUG_KINDS") != "" {
+					fmt.Fprintf(os.Stderr, "kinds %s %s: %q vs %q\n", fname(fn), c.pos(ins.Pos()), kx, ky)
+				}
 				if kx == "" || ky == "" {
 					continue // not (recognisably) a comparison of two rendered moments
 				}
